@@ -62,6 +62,23 @@ FIXTURES = [("TestFont.ufo", "compileTTF"), ("TestFont.ufo", "compileOTF"),
             ("CantarellAnchorPropagation.ufo", "compileTTF")]
 
 
+def gen_case_pairs(rng, tier):
+    """Glyph names that differ in case only (a / A, v / V ...), none of them in the stored glyph
+    order: whatever orders the unlisted glyphs must be a total order of the NAMES - anything
+    coarser leaves the result to set iteration order, i.e. to the hash seed."""
+    glyphs = []
+    for nm, cp in (("space", 0x20), ("a", 0x61), ("A", 0x41), ("v", 0x76), ("V", 0x56), ("t", 0x74),
+                   ("T", 0x54), ("w", 0x77), ("W", 0x57), ("o", 0x6F), ("O", 0x4F)):
+        glyphs.append(S._spec(rng, nm, [cp], empty=(nm == "space")))
+    rng.shuffle(glyphs)
+    ufo = {"glyphs": glyphs, "kerning": [["A", "V", -40], ["a", "v", -10]], "groups": {},
+           "features": "", "lib": {}, "glyphOrder": ["space"],
+           "info": {"unitsPerEm": 1000, "familyName": "T", "styleName": "R"}}
+    func = rng.choice(["compileTTF", "compileOTF"])
+    return {"kind": "outline", "ufo": ufo, "func": func, "opts": {}, "per_lib": True, "case_pairs": True,
+            "other_func": "compileOTF" if func == "compileTTF" else "compileTTF", "tier": tier}
+
+
 def gen_shared_options(rng, tier):
     """Options that are OBJECTS (an ftConfig dict asking for GPOS compaction) shared by every
     call of the child interpreter - first call, second call, after another function, inplace:
@@ -109,6 +126,8 @@ def gen(rng, idx, tier):
                 else "compileTTF"}
     if idx == len(FIXTURES):
         return gen_shared_options(rng, tier)
+    if idx == len(FIXTURES) + 1:
+        return gen_case_pairs(rng, tier)
     r = rng.random()
     if r < 0.3:
         ds = masters.family(rng, n_glyphs=rng.choice([4, 6]), missing_glyph=False,
@@ -247,6 +266,7 @@ def gen(rng, idx, tier):
     if func == "compileTTF" and rng.random() < 0.3:
         opts["flattenComponents"] = True
     return {"kind": kind, "ufo": ufo, "func": func, "opts": opts, "per_lib": partial,
+            "epoch": rng.choice([None, None, 0, 0, 86400]),
             "other_func": "compileOTF" if func == "compileTTF" else "compileTTF", "tier": tier}
 
 
@@ -276,6 +296,9 @@ def run(case):
         per_seed = {}
         for seed in seeds(case.get("tier", "quick")):
             env = dict(os.environ, PYTHONHASHSEED=str(seed))
+            if case.get("epoch") is not None:
+                # any pinned date is a pinned date - also the epoch itself
+                env["SOURCE_DATE_EPOCH"] = str(case["epoch"])
             try:
                 p = subprocess.run([sys.executable, "-m", "vf.props.c08_child", path], cwd=VERIF,
                                    env=env, capture_output=True, text=True, timeout=300)
@@ -331,6 +354,10 @@ def run(case):
         bump("cases_compared")
     if case.get("per_lib"):
         bump("cases_partial_glyph_order")
+    if case.get("case_pairs"):
+        bump("cases_unlisted_glyph_names_differing_in_case_only")
+    if case.get("epoch") == 0:
+        bump("cases_with_source_date_epoch_zero")
     if case.get("shared_options"):
         bump("cases_shared_option_objects_with_gpos_compaction")
     if case["kind"] == "ds":
